@@ -209,6 +209,26 @@ func ruleHalfClose(c *Ctx) {
 				}
 				ok2, _ := reg.MustPassUp(eng.After(cp), isCR)
 				c.CheckAt("HALFCLOSE", short(g)+":copy-then-CloseRead-of-its-source", cp, ok2, "after this copy the read side of its source is not closed on every path")
+				// ... and the end-of-stream is propagated at once: nothing waits for the other direction (channel operation,
+				// WaitGroup/Cond wait) between the end of this copy and the CloseWrite of its destination
+				isWait := func(ins ssa.Instruction) bool {
+					switch x := ins.(type) {
+					case *ssa.UnOp:
+						return x.Op == token.ARROW
+					case *ssa.Send:
+						return true
+					case *ssa.Select:
+						return x.Blocking
+					case *ssa.Call:
+						n := eng.CalleeName(&x.Call)
+						return n == "(*sync.WaitGroup).Wait" || n == "(*sync.Cond).Wait"
+					}
+					return false
+				}
+				if ok {
+					ok3, bad3 := eng.MustPassBefore(eng.After(cp), reg.Must(isCW, nil), reg.May(isWait))
+					c.CheckAt("HALFCLOSE", short(g)+":CloseWrite-does-not-wait-for-the-other-direction", cp, ok3, fmt.Sprintf("between the end of this copy and the CloseWrite of its destination the code waits for the other direction (%s): a peer that finishes first does not see end-of-stream until the other side finishes too", p.IPos(bad3)))
+				}
 			}
 			// every CloseWrite / CloseRead in this direction is on the destination / source of a copy of the same direction that has completed
 			for _, cl := range reg.Calls() {
